@@ -397,6 +397,24 @@ def gen_exhaustive(thorough=False):
     return cases
 
 
+def gen_nanos(rng):
+    """A window-consistent history moved to nanosecond-resolution Unix timestamps (about 1.7e18, beyond 2^53, where
+    neighbouring u64 values are not distinguishable as f64): times and widths of a random history are mapped by
+    t -> T0 + k*t, so renewals extend expiries by 1..200 units.  Everything stays exact in the model (N), in the
+    driver (u64) and in this file (Python ints)."""
+    c = gen_history(rng)
+    T0 = 1_700_000_000_000_000_000 + rng.randrange(0, 100000)
+    k = rng.choice([1, 1, 2, 5, 13])
+    steps = json.loads(json.dumps(c["steps"]))
+    for s in steps:
+        s["now"] = T0 + k * s["now"]
+        for w in s["windows"]:
+            w["alpha"] = k * w["alpha"]
+            for tr in w["triples"]:
+                tr[3] = T0 + k * tr[3]
+    return {"rules": c["rules"], "steps": steps, "repeat": 2}
+
+
 def gen_perturbed(rng):
     """Histories outside the property's quantifier (alive facts dropped early, arrival times going back, static
     graphs that change, a triple listed twice, saturating widths, evaluation at u64::MAX).  No oracle: the
@@ -640,6 +658,8 @@ def run(ctx):
     ctx.coverage["exhaustive"] = True
     ctx.coverage["exhaustive_scope"] = ("%d histories: chain scenario over two windows (widths 2, 3), arrival times 0-2 (thorough: 0-3), optional renewal at 2-3 (thorough: 2-4), "
                                         "every increasing triple of evaluation times from 1..%d, lingering or prompt eviction; 3 steps each" % (len(ex), 7 if ctx.thorough else 5))
+    ns = [gen_nanos(ctx.rng) for _ in range(n)]
+    evaluate(ctx, binpath, ns, "nanosecond_timestamps")
     fl = [gen_function_level(ctx.rng) for _ in range(n)]
     evaluate(ctx, binpath, fl, "function_level_arbitrary_state", oracle=False)
     pt = [gen_perturbed(ctx.rng) for _ in range(n)]
